@@ -63,6 +63,14 @@ pub fn read(mut reader: impl io::Read) -> io::Result<Value> {
 }
 
 fn read_typed<T: Element>(header: &Header, mut reader: impl io::Read) -> io::Result<Tensor<T>> {
+    // Like NumPy, treat zero-sized dimensions as 1 when checking for overflow.
+    // Otherwise a shape such as `(0, usize::MAX, usize::MAX)` has zero
+    // elements but overflows when the tensor's strides are computed.
+    header
+        .shape
+        .iter()
+        .try_fold(1usize, |acc, &dim| acc.checked_mul(dim.max(1)))
+        .ok_or_else(|| invalid_data("array element count overflows"))?;
     let n_elements = header
         .shape
         .iter()
